@@ -9,12 +9,15 @@ trap 'git -C /repo checkout -- .' EXIT
 miss=0
 for d in seeded/*/; do
   id=$(basename $d); prop=${id%%-*}
+  # the check that is recorded as catching it (normally the property's own); changes recorded as not caught at quick are run too, and marked
+  own=$(jq -r 'if (.caught_by_quick|index("'$prop'")) then "'$prop'" else (.caught_by_quick[0] // "'$prop'") end' "$d/meta.json" 2>/dev/null); [ -n "$own" ] && prop=$own
+  documented=$(jq -r 'if (.caught_by_quick|length)==0 then "documented-not-caught-at-quick" else "" end' "$d/meta.json" 2>/dev/null)
   [ -n "${ONLY:-}" ] && ! echo " $ONLY " | grep -q " $id " && continue
   git -C /repo apply "$PWD/${d%/}/patch.diff" || { echo "$id APPLY-FAILED"; continue; }
-  line="$id"
+  line="$id[$prop]"
   for s in "${seeds[@]}"; do
     VERIF_SEED=$s VERIF_EVIDENCE_OUT=/dev/null ./check $prop quick >/dev/null 2>&1; rc=$?
-    if [ $rc -eq 1 ]; then line="$line seed$s=caught"; elif [ $rc -eq 0 ]; then line="$line seed$s=MISSED"; miss=$((miss+1)); else line="$line seed$s=rc$rc"; fi
+    if [ $rc -eq 1 ]; then line="$line seed$s=caught"; elif [ $rc -eq 0 ] && [ -n "$documented" ]; then line="$line seed$s=missed($documented)"; elif [ $rc -eq 0 ]; then line="$line seed$s=MISSED"; miss=$((miss+1)); else line="$line seed$s=rc$rc"; fi
   done
   echo "$line"
   git -C /repo checkout -- .
